@@ -324,6 +324,10 @@ func (fc *FuncCtx) evalBuiltin(st *State, name string, call *ast.CallExpr) Val {
 	case "clear":
 		fc.abstract("clear() not modelled", call.Pos())
 		return Val{}
+	case "close":
+		fc.evalExpr(st, call.Args[0])
+		fc.note("channel operations have no effect on the modelled state")
+		return Val{}
 	case "print", "println":
 		return Val{}
 	case "recover":
@@ -395,18 +399,9 @@ func (fc *FuncCtx) ufName(fn *types.Func, recv *Val) string {
 	pp, k := funcKeyOf(fn)
 	sig := fn.Type().(*types.Signature)
 	if sig.Recv() != nil {
-		rt := types.Unalias(sig.Recv().Type())
-		if _, ok := rt.Underlying().(*types.Interface); ok {
-			return "m$" + fn.Name()
-		}
-		if _, ok := rt.(*types.TypeParam); ok {
-			return "m$" + fn.Name()
-		}
-		if recv != nil {
-			if _, ok := types.Unalias(recv.Typ).(*types.TypeParam); ok {
-				return "m$" + fn.Name()
-			}
-		}
+		// methods are named by method name only (a function of the receiver value), so that a call dispatched
+		// through an interface or a type parameter and a call on the concrete type denote the same term
+		return "m$" + fn.Name()
 	}
 	short := pp
 	if i := strings.LastIndex(pp, "/"); i >= 0 {
@@ -579,12 +574,39 @@ func (fc *FuncCtx) applyContract(st *State, fn *types.Func, c *FuncContract, rec
 		if i < len(args) && p.Name() != "" && p.Name() != "_" {
 			bindParam(p.Name(), p.Type(), args[i])
 		}
+		// positional name for unnamed parameters (interface methods): arg0, arg1, ...
+		if i < len(args) {
+			pn := fmt.Sprintf("arg%d", i)
+			if p.Name() != "" && p.Name() != "_" {
+				names[pn] = names[p.Name()]
+			} else {
+				bindParam(pn, p.Type(), args[i])
+			}
+		}
 	}
 	cc := &calleeCtx{fn: fn, names: names, pkg: fn.Pkg()}
 	sc := &specCtx{names: names, old: nil, pkg: fn.Pkg(), callee: cc, binds: c.Binds}
+	// the callee contract's let-bindings, evaluated in the pre-state
+	for _, l := range c.Lets {
+		le, err := parseSpecExpr(l[1])
+		if err != nil {
+			panic(engineError{err.Error()})
+		}
+		fc.noOblig++
+		names[l[0]] = fc.evalSpec(st, le, sc)
+		fc.noOblig--
+	}
 	// preconditions
+	specPre := TTrue
 	for _, rq := range c.Requires {
-		if rq.Free || rq.Unproved || fc.inSpec {
+		if rq.Free || rq.Unproved {
+			continue
+		}
+		if fc.inSpec {
+			// a pure function named inside a specification: its postcondition is only known under its precondition
+			fc.noOblig++
+			specPre = And(specPre, fc.evalSpecBool(st, rq.Expr, sc))
+			fc.noOblig--
 			continue
 		}
 		g := fc.evalSpecBool(st, rq.Expr, sc)
@@ -599,9 +621,8 @@ func (fc *FuncCtx) applyContract(st *State, fn *types.Func, c *FuncContract, rec
 	for _, m := range c.Modifies {
 		fc.modifiesKeys(fn, m, as)
 	}
-	// precise havoc for "x.f" items: only that location; for *p: that cell
-	fc.havocModifies(st, c, sc, as)
-	// results
+	// results (created first so that modifies clauses may name locations of the result, e.g. fields of a
+	// freshly allocated object)
 	var results []Val
 	res := sig.Results()
 	for i := 0; i < res.Len(); i++ {
@@ -615,7 +636,16 @@ func (fc *FuncCtx) applyContract(st *State, fn *types.Func, c *FuncContract, rec
 		var t *Term
 		s := fc.sortOf(rt)
 		if c.Pure {
-			t = App(fc.ufName(fn, recv)+fmt.Sprintf("#%d", i), s, fc.argTerms(st, recv, args)...)
+			ats := fc.argTerms(st, recv, args)
+			nm := fc.ufName(fn, recv)
+			if res.Len() > 1 {
+				nm = fmt.Sprintf("%s#%d", nm, i)
+			}
+			var sg []string
+			for _, a := range ats {
+				sg = append(sg, sortTag(a.Sort))
+			}
+			t = App(nm+"$"+strings.Join(sg, ".")+">"+sortTag(s), s, ats...)
 		} else {
 			t = fc.freshConst("r_"+fn.Name(), s)
 		}
@@ -631,6 +661,8 @@ func (fc *FuncCtx) applyContract(st *State, fn *types.Func, c *FuncContract, rec
 			names["result"] = v
 		}
 	}
+	// precise havoc for "x.f" items: only that location; for *p: that cell
+	fc.havocModifies(st, c, sc, as)
 	for _, en := range c.Ensures {
 		if en.Unproved {
 			continue
@@ -638,6 +670,9 @@ func (fc *FuncCtx) applyContract(st *State, fn *types.Func, c *FuncContract, rec
 		fc.noOblig++
 		g := fc.evalSpecBool(st, en.Expr, sc)
 		fc.noOblig--
+		if fc.inSpec {
+			g = Implies(specPre, g)
+		}
 		st.assume(g)
 	}
 	// write back pointer cells
